@@ -129,6 +129,9 @@ func gobSources(tier string) []*Dec {
 			}
 		}
 	}
+	for _, o := range staleSpecials(9, ToZero) {
+		out = append(out, o.Build()) // ±0/±Inf in variables that held finite values before
+	}
 	// infinities and zeros that still carry the accuracy of the overflow / underflow that produced them
 	for k, p := range []uint32{1, 34} {
 		for _, neg := range []bool{false, true} {
